@@ -510,6 +510,13 @@ class Repo:
                 return v
         raise Unsupported('function not found: ' + qualname)
 
+    def locate_class(self, qualname, interp):
+        mod, name = qualname.rsplit('.', 1)
+        v = self.module(mod).get(name, interp)
+        if not isinstance(v, ClassV):
+            raise Unsupported('not a class: ' + qualname)
+        return v
+
     def source_info(self, func):
         node = func.node
         seg = ast.get_source_segment(func.module.src.decode('utf8'), node) or ''
@@ -534,6 +541,8 @@ class Obligation:
         self.where = where
         self.facts = None   # filled at end of path
         self.lemma_ids = set()
+        self.hints = []
+        self.proved = None
         self.path = None
 
 
